@@ -15,6 +15,11 @@
                                                      retention-aware durable-map claim `claimR` of Spec/BlockStoreMap.lean?)
     lost                                          -> lost <i> …      (ghost FS.lost, sorted)
     names                                         -> names dat<i> … old<i> …   (data files present, sorted by i)
+    claimkind                                     -> nothing | data | len   (what `claimR` demanded of the last operation)
+    poke idx <pos> <bytes> | poke dat <i> <pos> <bytes>
+                                                  -> ok | bad   (closed store only: somebody else overwrites bytes of a file — legacy
+                                                     records, damaged data; outside `step`, so every specification entry is tainted:
+                                                     no claim is made afterwards, only model = implementation is compared)
     senc <bytes>                                  -> ok <bytes>
     sdec <bytes>                                  -> ok <bytes> | err
 -/
@@ -114,6 +119,13 @@ structure OSt where
   s : State := init
   sp : Spec := {}
   lastOK : Bool := true
+  /-- what the retention-aware claim demanded of the last operation: nothing / data / len -/
+  lastKind : String := "nothing"
+
+def claimKind : Claim → String
+  | .nothing => "nothing"
+  | .data _ _ => "data"
+  | .len _ => "len"
 
 def holdsB : Claim → Out → Bool
   | .nothing, _ => true
@@ -124,13 +136,30 @@ def stepLine (st : OSt) (toks : List String) : OSt × String :=
   match toks with
   | ["reset"] => ({}, "ok")
   | ["claim"] => (st, if st.lastOK then "ok" else "violated")
+  | ["claimkind"] => (st, st.lastKind)
+  | ["poke", "idx", pos, b] =>
+    match pos.toNat?, Hex.decode b with
+    | some pos, some b =>
+      if st.s.isOpen then (st, "bad") else
+      ({ st with s := { st.s with fs := { st.s.fs with idx := pwrite st.s.fs.idx pos b } },
+                 sp := { st.sp with m := st.sp.m.map (fun (k, e) => (k, { e with tainted := true })) } }, "ok")
+    | _, _ => (st, "bad-op")
+  | ["poke", "dat", i, pos, b] =>
+    match i.toNat?, pos.toNat?, Hex.decode b with
+    | some i, some pos, some b =>
+      match st.s.isOpen, AL.get st.s.fs.dats i with
+      | false, some f =>
+        ({ st with s := { st.s with fs := { st.s.fs with dats := AL.set st.s.fs.dats i (pwrite f pos b) } },
+                   sp := { st.sp with m := st.sp.m.map (fun (k, e) => (k, { e with tainted := true })) } }, "ok")
+      | _, _ => (st, "bad")
+    | _, _, _ => (st, "bad-op")
   | ["lost"] => (st, " ".intercalate ("lost" :: ((st.s.fs.lost.eraseDups.toArray.qsort (· < ·)).toList.map toString)))
   | _ =>
     match parseOp toks with
     | some op =>
       let c := claimR st.s st.sp op
       let (s', o) := step env st.s op
-      ({ s := s', sp := specStep st.sp op, lastOK := holdsB c o }, outStr o)
+      ({ s := s', sp := specStep st.s st.sp op, lastOK := holdsB c o, lastKind := claimKind c }, outStr o)
     | none =>
       let (s', r) := stepLine0 st.s toks
       ({ st with s := s' }, r)
